@@ -156,17 +156,17 @@ func tOf(v interface{}) reflect.Type { return reflect.TypeOf(v).Elem() }
 
 var targets = []*target{
 	{Name: "uint8", T: tOf(new(uint8)), Int: true},
-	{Name: "uint16", T: tOf(new(uint16)), Int: true, Exh4: true},
+	{Name: "uint16", T: tOf(new(uint16)), Int: true},
 	{Name: "uint32", T: tOf(new(uint32)), Int: true},
 	{Name: "uint64", T: tOf(new(uint64)), Int: true, Exh4: true},
 	{Name: "uint", T: tOf(new(uint)), Int: true},
 	{Name: "*big.Int", T: tOf(new(*big.Int)), Int: true, Exh4: true},
 	{Name: "big.Int", T: tOf(new(big.Int)), Int: true},
-	{Name: "bool", T: tOf(new(bool)), Exh4: true},
-	{Name: "string", T: tOf(new(string)), Exh4: true},
+	{Name: "bool", T: tOf(new(bool))},
+	{Name: "string", T: tOf(new(string))},
 	{Name: "[]byte", T: tOf(new([]byte)), Exh4: true, Alloc: true},
 	{Name: "[0]byte", T: tOf(new([0]byte))},
-	{Name: "[1]byte", T: tOf(new([1]byte)), Exh4: true},
+	{Name: "[1]byte", T: tOf(new([1]byte))},
 	{Name: "[2]byte", T: tOf(new([2]byte))},
 	{Name: "[20]byte", T: tOf(new([20]byte))},
 	{Name: "[32]byte", T: tOf(new([32]byte))},
@@ -175,7 +175,7 @@ var targets = []*target{
 	{Name: "rlp.RawValue", T: tOf(new(rlp.RawValue)), Raw: true, Exh4: true, Alloc: true},
 	{Name: "interface{}", T: tOf(new(interface{})), Exh4: true, Alloc: true},
 	{Name: "[]interface{}", T: tOf(new([]interface{})), Alloc: true},
-	{Name: "[]uint64", T: tOf(new([]uint64)), Exh4: true},
+	{Name: "[]uint64", T: tOf(new([]uint64))},
 	{Name: "[]uint16", T: tOf(new([]uint16))},
 	{Name: "[]bool", T: tOf(new([]bool))},
 	{Name: "[]string", T: tOf(new([]string))},
@@ -183,7 +183,7 @@ var targets = []*target{
 	{Name: "[][]uint16", T: tOf(new([][]uint16))},
 	{Name: "[]*big.Int", T: tOf(new([]*big.Int))},
 	{Name: "[2]uint64", T: tOf(new([2]uint64))},
-	{Name: "[][1]byte", T: tOf(new([][1]byte)), Exh4: true},
+	{Name: "[][1]byte", T: tOf(new([][1]byte))},
 	{Name: "[3][1]byte", T: tOf(new([3][1]byte))},
 	{Name: "[][20]byte", T: tOf(new([][20]byte))},
 	{Name: "[]common.Hash", T: tOf(new([]common.Hash))},
@@ -191,7 +191,7 @@ var targets = []*target{
 	{Name: "trie-short[2][]byte", T: tOf(new([2][]byte))},
 	{Name: "trie-full[17][]byte", T: tOf(new([17][]byte))},
 	{Name: "trie-full[17]rlp.RawValue", T: tOf(new([17]rlp.RawValue)), Raw: true},
-	{Name: "Inner{uint64,[]byte}", T: tOf(new(Inner)), Exh4: true},
+	{Name: "Inner{uint64,[]byte}", T: tOf(new(Inner))},
 	{Name: "account.Account", T: tOf(new(account.Account)), Alloc: true},
 	{Name: "*eth_tx.Transaction", T: tOf(new(eth_tx.Transaction)), Tx: true, Alloc: true},
 	{Name: "TxMirror(txdata-shape)", T: tOf(new(TxMirror)), Alloc: true},
@@ -203,13 +203,13 @@ var targets = []*target{
 	{Name: "NilUintSlice{uint64,*[]uint64`nil`,uint64}", T: tOf(new(NilUintSlice))},
 	{Name: "NilUintArray{*[2]uint64`nil`}", T: tOf(new(NilUintArray))},
 	{Name: "NilBig{*big.Int`nil`,uint64}", T: tOf(new(NilBig))},
-	{Name: "Tail{uint64,[]uint64`tail`}", T: tOf(new(Tail)), Exh4: true},
-	{Name: "TailBytes{[1]byte,[][]byte`tail`}", T: tOf(new(TailBytes)), Exh4: true},
+	{Name: "Tail{uint64,[]uint64`tail`}", T: tOf(new(Tail))},
+	{Name: "TailBytes{[1]byte,[][]byte`tail`}", T: tOf(new(TailBytes))},
 	{Name: "TailStructs{string,[]Inner`tail`}", T: tOf(new(TailStructs))},
 	{Name: "Ignored{uint64,-,[]byte,bool}", T: tOf(new(Ignored))},
 	{Name: "Ptrs{*uint64,*Inner,*[20]byte,*[]byte,*big.Int}", T: tOf(new(Ptrs))},
 	{Name: "Outer", T: tOf(new(Outer))},
-	{Name: "Rec{uint64,[]Rec}", T: tOf(new(Rec)), Exh4: true},
+	{Name: "Rec{uint64,[]Rec}", T: tOf(new(Rec))},
 	{Name: "ByteArrays{[0]byte,[1]byte,[1]byte,[20]byte,uint64}", T: tOf(new(ByteArrays))},
 }
 
